@@ -40,11 +40,23 @@ TOTAL_CALLS = {
 }
 
 
+# diagnostics and clocks: a maintainer adding a log line or a timer to a thread target does not break the property
+TOTAL_DOTTED = {"print", "len", "str", "repr", "bool", "id", "time.monotonic", "time.time", "time.perf_counter", "warnings.warn", "uuid.uuid4", "threading.get_ident", "threading.current_thread"}
+LOG_METHODS = {"debug", "info", "warning", "error", "exception", "critical", "log"}
+
+
+def _is_total(c: ast.Call) -> bool:
+    d = dotted(c.func) or ""
+    if last_attr(c) in TOTAL_CALLS or d.startswith("events.") or d in TOTAL_DOTTED:
+        return True
+    if isinstance(c.func, ast.Attribute) and c.func.attr in LOG_METHODS and d.split(".")[0].lower() in ("logger", "logging", "log", "_logger"):
+        return all(isinstance(a, (ast.Constant, ast.Name, ast.JoinedStr, ast.Attribute)) for a in c.args)
+    return False
+
+
 def _only_total_calls(node: ast.AST) -> bool:
     cs = [c for c in walk_local(node) if isinstance(c, ast.Call)]
-    return all((last_attr(c) in TOTAL_CALLS) or ((dotted(c.func) or "").startswith("events.")) for c in cs) and not any(
-        isinstance(x, ast.Subscript) for x in walk_local(node)
-    )
+    return all(_is_total(c) for c in cs) and not any(isinstance(x, ast.Subscript) for x in walk_local(node))
 
 
 NO_RAISE_MANAGERS = {"ignore_hypothesis_output", "catch_warnings", "warnings.catch_warnings"}
@@ -131,7 +143,7 @@ def o1_thread_targets(chk: Check) -> None:
             text = norm(s) if not isinstance(s, (ast.If, ast.While, ast.For, ast.With)) else norm(s).split(":")[0]
             # key: statement kind + the callees that may raise (local variable names are incidental)
             hdr_ = s.iter if isinstance(s, ast.For) else (s.test if isinstance(s, (ast.If, ast.While)) else s)
-            callees = [dotted(c.func) or last_attr(c) or "?" for c in (calls(hdr_, into_nested=False) if not isinstance(s, ast.With) else [i.context_expr for i in s.items if isinstance(i.context_expr, ast.Call)]) if last_attr(c) not in TOTAL_CALLS]
+            callees = [dotted(c.func) or last_attr(c) or "?" for c in (calls(hdr_, into_nested=False) if not isinstance(s, ast.With) else [i.context_expr for i in s.items if isinstance(i.context_expr, ast.Call)]) if not _is_total(c)]
             kind_ = {ast.For: "for .. in ", ast.If: "if ", ast.While: "while ", ast.With: "with "}.get(type(s), "")
             key_ = f"{kind_}{', '.join(f'{c}(...)' for c in callees)}" if callees else text[:120]
             chk.violation(
